@@ -20,6 +20,7 @@ import (
 //vp:all stub (*github.com/bolkedebruin/gokrb5/v8/config.Config).GetKDCs = vpGetKDCs
 //vp:all stub (*github.com/bolkedebruin/gokrb5/v8/config.Config).ResolveRealm = vpResolveRealm
 //vp:all stub net.Dial = vpNetDial
+//vp:all model time.Since = vpmSinceAny
 //vp:all stub github.com/bolkedebruin/gokrb5/v8/config.Load = vpKrbLoad
 //vp:all stub github.com/jcmturner/gofork/encoding/asn1.Unmarshal = vpASN1Unmarshal
 //vp:all stub github.com/jcmturner/gofork/encoding/asn1.Marshal = vpASN1Marshal
@@ -52,6 +53,13 @@ func (c *vpKConn) Read(b []byte) (int, error) {
 			vpWaitProgress()
 		}
 		return 0, errors.New("vp: i/o timeout")
+	}
+	if c.rpos == 0 && vpSlowHosts[c.host] {
+		// a KDC that is slower than the others: its reply has not come by the time the connection is closed
+		for !c.closed {
+			vpWaitProgress()
+		}
+		return 0, errors.New("vp: use of closed network connection")
 	}
 	if c.rpos == 0 && !c.rerr {
 		// a KDC that answers this request only once it has received a later one as well
@@ -138,6 +146,7 @@ func vpResetK() {
 	vpSplitReplies = false
 	vpRealDER = false
 	vpKdcAnswersAfterConns = 0
+	vpDownHosts, vpSlowHosts = nil, nil
 }
 
 // GetKDCs contract (gokrb5 randServOrder): error for an unknown realm, else (n, map{1..n -> host}).
@@ -188,6 +197,8 @@ func vpResolveRealm(c *krbconfig.Config, domain string) string { return "" }
 
 // vpRealmKnown: the configured realms. GetKDCs("") means the default realm (library behaviour).
 var vpRealmCheck bool
+var vpDownHosts map[string]bool // KDCs that refuse connections at the moment
+var vpSlowHosts map[string]bool // KDCs whose reply comes later than the others'
 var vpAlwaysReply bool
 
 func vpRealmConfigured(realm string) bool {
@@ -199,7 +210,7 @@ func vpNetDial(network, address string) (net.Conn, error) {
 	vpDialLog = append(vpDialLog, network+"!"+address)
 	k := vpItoa(len(vpDialLog))
 	vpKMu.Unlock()
-	if address == "" || vpAllDialsFail || (!vpAlwaysReply && vpBool("dial-fails-"+k)) {
+	if address == "" || vpAllDialsFail || vpDownHosts[address] || (!vpAlwaysReply && vpBool("dial-fails-"+k)) {
 		return nil, errors.New("vp: connection refused")
 	}
 	c := &vpKConn{proto: network, host: address}
@@ -649,4 +660,40 @@ func VP_C09_kdc_lookups() {
 	vpReach("done")
 	vpAssert(ws[0].status == 503 && ws[1].status == 503, "no-kdc-reachable-is-503-for-each-request")
 	vpAssert(len(vpDialLog) == 4, "each-request-tries-both-kdcs")
+}
+
+
+//vp:property C20
+//vp:bounds a realm with two TCP KDCs and two requests one after the other: the first is answered while both KDCs are up (the first replies sooner; the proxy takes that reply and closes the other connection, whose reader ends with an error); then the first KDC goes down (refuses connections) and the second request must be answered through the other one; any time may pass between the two requests
+//vp:assume KDCs reply with 3 symbolic bytes; cooperative schedule
+//vp:reach second-answered
+func VP_C20_failover_after_a_race() {
+	vpResetK()
+	vpRealmCheck, vpUnknown = true, false
+	vpUDPn, vpTCPn = 0, 2
+	vpAlwaysReply = true
+	proxy := vpProxy()
+	vpDERok, vpRest = true, 0
+	vpMsg = KdcProxyMsg{Message: []byte{0, 0, 0, 1, 0x60}, Realm: "BRANCH.TEST"}
+	post := func() *vpRW {
+		w := &vpRW{hdr: http.Header{}}
+		proxy.Handler(w, &http.Request{Method: "POST", ContentLength: 4, Body: &vpBody{data: make([]byte, 4)}})
+		vpRunTasks()
+		return w
+	}
+	vpSlowHosts = map[string]bool{"tcp-kdc-2": true} // the second KDC is up, just slower than the first
+	w1 := post()
+	vpAssert(w1.status == 200, "first-request-answered-while-both-kdcs-are-up")
+	vpSlowHosts = nil
+	vpDownHosts = map[string]bool{"tcp-kdc-1": true}
+	before := len(vpDialLog)
+	w2 := post()
+	vpReach("second-answered")
+	vpObserve("status2", uint64(w2.status))
+	reachedOther := false
+	for _, d := range vpDialLog[before:] {
+		reachedOther = reachedOther || d == "tcp!tcp-kdc-2"
+	}
+	vpAssert(reachedOther, "the-reachable-kdc-of-the-realm-is-tried")
+	vpAssert(w2.status == 200, "a-realm-with-a-reachable-kdc-is-answered")
 }
